@@ -265,8 +265,10 @@ whitespace, first token, "every whitespace run between two neighbouring tokens/c
 acceptable separator for the second one" (`sepOk`: `""`, `" "`, or one line break / one blank line
 followed by an indentation run; nothing at all in front of `;`), trailing whitespace. -/
 
-/-- SPACING NORMAL FORM. For every well-formed file of the fragment (containers, parentheses, function
-    calls, any nesting) in which no one-line container holds a comment in front of an item, no comment
+/-- SPACING NORMAL FORM. For every well-formed file of the fragment without `with` (`File.basic`:
+    containers, parentheses, function calls, any nesting — the spacing proof has not been extended to
+    `with e; body` yet; no counterexample is known there, the decidable conclusion is evaluated on every
+    sample of every run) in which no one-line container holds a comment in front of an item, no comment
     stands between `(` and a value on the same line, and no comment touches the function of a call whose
     argument is on the same line (`Src.beforeFlatB`: the items of a container without a line break, the
     value of a parenthesis whose leading gap has no line break and the argument of a call whose gap
@@ -275,17 +277,17 @@ followed by an indentation run; nothing at all in front of `;`), trailing whites
     no whitespace before its first token, every separator is in the formatter's normal form, `;`
     is attached, and the file ends with at most one blank line. -/
 theorem frag_spacing_nf (f : File) (s : Src) (hwf : f.wf = true) (_hws : f.noLeadingWs = true)
-    (hp : f.parse = .ok s) (hclean : s.beforeFlatB = true) :
+    (hbasic : f.basic = true) (hp : f.parse = .ok s) (hclean : s.beforeFlatB = true) :
     (summ s.rebuildP).fileOk = true :=
-  file_nf_flat f s hwf hp hclean
+  file_nf_flat f s hwf hbasic hp hclean
 
 /-- the same with the exclusion as the render-side induction uses it (`inlineCleanB` additionally
     asks that every item's trailing trivia in a one-line container ends with a comment, which
     `Lemmas/FragFlat.lean` proves for everything `fromCst` builds) -/
 theorem frag_spacing_nf_clean (f : File) (s : Src) (hwf : f.wf = true) (_hws : f.noLeadingWs = true)
-    (hp : f.parse = .ok s) (hclean : s.inlineCleanB = true) :
+    (hbasic : f.basic = true) (hp : f.parse = .ok s) (hclean : s.inlineCleanB = true) :
     (summ s.rebuildP).fileOk = true :=
-  file_nf f s hwf hp (src_inlineClean hclean)
+  file_nf f s hwf hbasic hp (src_inlineClean hclean)
 
 /-- what `fileOk` says, in terms of the pieces: for any two neighbouring tokens/comments `p`, `q`
     of the output with only whitespace pieces `W` between them, `concat W` is a `NormalSep`, and it
@@ -411,7 +413,7 @@ def grownSample : File :=
 
 example : grownSample.flatten = "{\n  a = f /* c */ (\n\n      x # e\n   )\n# d\n\n\t([] );\n}".toList := by decide
 example : grownSample.roundtrip = .ok "{\n  a = f /* c */ (\n\n      x # e\n  )\n\n # d\n\n ([ ]);\n}".toList := by decide
-example : grownSample.wf = true ∧ grownSample.noLeadingWs = true := by decide
+example : grownSample.wf = true ∧ grownSample.noLeadingWs = true ∧ grownSample.basic = true := by decide
 example : (match grownSample.parse with | .ok s => s.beforeFlatB | _ => false) = true := by decide
 
 /-- a file with comments in many gaps that satisfies the hypotheses -/
@@ -423,7 +425,7 @@ def fragSample : File :=
     endGap := "\n\n\n".toList }
 
 example : fragSample.flatten = "# h\n\n\n{\n\ta /* n */  =\n\n      [ 1\t] ; # e\n\n\n# o\n\n\n}\n\n\n".toList := by decide
-example : fragSample.wf = true ∧ fragSample.noLeadingWs = true := by decide
+example : fragSample.wf = true ∧ fragSample.noLeadingWs = true ∧ fragSample.basic = true := by decide
 example : (match fragSample.parse with | .ok s => s.beforeFlatB | _ => false) = true := by decide
 example : fragSample.roundtrip = .ok "# h\n\n{\n  a =\n      /* n */\n\n      [ 1 ]; # e\n\n  # o\n\n}\n\n".toList := by decide
 
